@@ -76,6 +76,11 @@ func collectUnits(e *Engine, prop string) []*UnitResult {
 		if r := e.verifyInit(tp, []string{prop}); r != nil {
 			units = append(units, r)
 		}
+		for _, sf := range tp.Stable {
+			if prop == "" || hasProp(sf.Props, prop) {
+				units = append(units, e.verifyStable(tp, sf, []string{prop}))
+			}
+		}
 		for _, k := range sortedKeys(tp.Contracts) {
 			c := tp.Contracts[k]
 			if prop != "" && !hasProp(c.Props, prop) {
